@@ -114,7 +114,11 @@ func cmdCheck(args []string) int {
 		fmt.Println(line)
 	}
 
-	w, err := loadWorld(*repo, contractDirs(*repo))
+	dirs := contractDirsFor(*repo, prop)
+	if len(dirs) == 0 {
+		dirs = contractDirs(*repo)
+	}
+	w, err := loadWorld(*repo, dirs)
 	if err != nil {
 		violate("machinery:load", err.Error(), false, nil)
 		writeEvidence(evPath, prop, *tier, seed, nil, nil, 0, 0, violations, time.Since(t0).Seconds(), nil, nil, nil, 0, 0)
